@@ -9,8 +9,8 @@ RULE = ("sessions = a table of screen programs (stack operations, signals, raise
         "non-trivial per property: see harness/screen_check.py nontrivial()")
 
 MANIFEST = dict(
-    text="Proof: the acceptor chk_C07 (after the screen's answer the next event is the one the table demands: nothing / one redraw / close of the top screen / the quit protocol with the configured dialog / the re-prompt of the top screen, every fifth consecutive rejection of a screen a redraw instead) holds for every session of the model (C07_followup); the answer table C07_table is total by cases; C07_counter.",
-    note="Trusted: Coq kernel, extraction, harness (screen_worker.py records events through subclasses / name patching and releases typed lines when the loop is idle). " + "the quit dialog's answer is a per-screen attribute set by commands (missing / True / other).",
+    text="Proof: the acceptor chk_C07 (after the screen's answer the next event is the one the table demands: nothing / one redraw / close of the top screen / the quit protocol with the configured dialog — quit iff its answer is True or it has none — / the re-prompt of the top screen, every fifth consecutive rejection of a screen a redraw instead, any accepted line resets the count) holds for every session of the model (C07_one_followup); the answer table is total by cases and equals the table translated from /repo's InputManager._process_input on every build (C07_table, props/Translated.v); C07_counter, C07_counter_update, C07_counter_streak. props/Adv.v: the adv_widgets screens (YesNoDialog, ErrorDialog, HelpScreen, GetInputScreen, GetPasswordInputScreen, PasswordDialog) are instances of the model (Adv_*), compared with the real classes on every run.",
+    note="Trusted: Coq kernel, extraction, harness (screen_worker.py records events through subclasses / name patching and releases typed lines when the loop is idle). " + "the quit dialog's answer is a per-screen attribute (missing / True / False / None), set by commands or before the first callback.",
     technique="Coq theorem: a trace acceptor holds for every application session of an interpreter model of the screen layer over the MainLoop model; the same extracted acceptor judges traces of the real implementation; differential correspondence model<->/repo")
 
 
